@@ -74,6 +74,14 @@ pub mod extra {
                 let r = super::tm::tm__f64__DragonboxFloat__remove_trailing_zeros(a[0].parse().unwrap());
                 format!("{} {}", r.0, r.1)
             },
+            "lemire_f64" => {
+                let r = super::lemire_f64(a[0].parse().unwrap(), a[1].parse().unwrap(), a[2].parse::<u8>().unwrap() != 0, a[3].parse::<u8>().unwrap() != 0);
+                format!("{} {}", r.mant, r.exp)
+            },
+            "lemire_f32" => {
+                let r = super::lemire_f32(a[0].parse().unwrap(), a[1].parse().unwrap(), a[2].parse::<u8>().unwrap() != 0, a[3].parse::<u8>().unwrap() != 0);
+                format!("{} {}", r.mant, r.exp)
+            },
             _ => format!("UNKNOWN-KERNEL {}", kernel),
         }
     }
@@ -194,6 +202,31 @@ pub mod tm {
 
 /// Monomorphic instances of generic free functions left as calls by the MIR inliner.
 pub mod mono {
+    use lexical_parse_float::float::ExtendedFloat80 as PF80;
+    #[inline(never)]
+    pub fn compute_float__f64(q: i64, w: u64, lossy: bool) -> PF80 {
+        lexical_parse_float::lemire::compute_float::<f64>(q, w, lossy)
+    }
+    #[inline(never)]
+    pub fn compute_float__f32(q: i64, w: u64, lossy: bool) -> PF80 {
+        lexical_parse_float::lemire::compute_float::<f32>(q, w, lossy)
+    }
+    #[inline(never)]
+    pub fn compute_error__f64(q: i64, w: u64) -> PF80 {
+        lexical_parse_float::lemire::compute_error::<f64>(q, w)
+    }
+    #[inline(never)]
+    pub fn compute_error__f32(q: i64, w: u64) -> PF80 {
+        lexical_parse_float::lemire::compute_error::<f32>(q, w)
+    }
+    #[inline(never)]
+    pub fn compute_error_scaled__f64(q: i64, w: u64, lz: i32) -> PF80 {
+        lexical_parse_float::lemire::compute_error_scaled::<f64>(q, w, lz)
+    }
+    #[inline(never)]
+    pub fn compute_error_scaled__f32(q: i64, w: u64, lz: i32) -> PF80 {
+        lexical_parse_float::lemire::compute_error_scaled::<f32>(q, w, lz)
+    }
     #[inline(never)]
     pub fn is_left_endpoint__f32(e: i32) -> bool {
         lexical_write_float::algorithm::is_left_endpoint::<f32>(e)
@@ -210,4 +243,30 @@ pub mod mono {
     pub fn is_right_endpoint__f64(e: i32) -> bool {
         lexical_write_float::algorithm::is_right_endpoint::<f64>(e)
     }
+}
+
+/// The Eisel-Lemire wrapper including the truncated-digits second pass (C19).
+#[inline(never)]
+pub fn lemire_f64(mantissa: u64, exponent: i64, many_digits: bool, lossy: bool) -> ExtendedFloat80 {
+    let num = lexical_parse_float::number::Number {
+        exponent,
+        mantissa,
+        is_negative: false,
+        many_digits,
+        integer: &[],
+        fraction: None,
+    };
+    lexical_parse_float::lemire::lemire::<f64>(&num, lossy)
+}
+#[inline(never)]
+pub fn lemire_f32(mantissa: u64, exponent: i64, many_digits: bool, lossy: bool) -> ExtendedFloat80 {
+    let num = lexical_parse_float::number::Number {
+        exponent,
+        mantissa,
+        is_negative: false,
+        many_digits,
+        integer: &[],
+        fraction: None,
+    };
+    lexical_parse_float::lemire::lemire::<f32>(&num, lossy)
 }
